@@ -1,6 +1,7 @@
 /-
   Bnum.Drive.C10 — parsing ops.
     from_str_radix cfg radix <hexbytes-of-the-string>   → Ok(hex) / Err(Empty|InvalidDigit|PosOverflow|NegOverflow) / P
+    parse_str_radix cfg radix <hexbytes-of-the-string>  → hex / P
     parse_bytes    cfg radix <hexbytes>                 → S(hex) / N / P
     from_str       cfg <hexbytes>                       → Ok(hex) / Err(..)
     from_radix_be  cfg radix <hexbytes-of-digit-values> → S(hex) / N / P
@@ -46,6 +47,12 @@ def handle : Handler := fun c op args =>
   | "from_str_radix", [r, s] => do
     let radix ← r.toNat?; let s ← parseBytes s
     some (showOut (showPRes c) (fsr s radix), spStr radix s)
+  | "parse_str_radix", [r, s] => do
+    let radix ← r.toNat?; let s ← parseBytes s
+    let mo := if c.signed then II.parseStrRadix w n s radix else UI.parseStrRadix w n s radix
+    let sp := if 2 ≤ radix ∧ radix ≤ 36 then
+        (match expectParse radix c.signed m s with | .ok z => showInt c z | _ => "P") else "P"
+    some (showOut (showVal c) mo, sp)
   | "parse_bytes", [r, s] => do
     let radix ← r.toNat?; let s ← parseBytes s
     let mo := if c.signed then II.parseBytes w n s radix else UI.parseBytes w n s radix
